@@ -299,6 +299,34 @@ class Gen:
                                'Z*Z*bool', txt, 'bool', ast.unparse(test)))
         self.item('alloc_rollover', rollover)
 
+        def augment(rel, qual, target, name, subst):
+            """ value of the single `target += <expr>` in a function """
+            def go():
+                f = find_def(self.tree(rel), qual)
+                found = [n for n in ast.walk(f)
+                         if isinstance(n, ast.AugAssign)
+                         and ast.unparse(n.target) == target]
+                if len(found) != 1 or not isinstance(found[0].op, ast.Add):
+                    raise Untranslatable(f"{qual}: expected exactly one "
+                                         f"`{target} += ...`")
+                tr = Tr(subst=subst)
+                txt, ty = tr.expr(found[0].value)
+                assert ty == 'Z'
+                args = sorted({u for v in subst.values() for u in v[2]})
+                self.exprs.append((name, args or ['tt_'], 'Z' if args
+                                   else 'unit', txt, 'Z',
+                                   ast.unparse(found[0])))
+            self.item(name, go)
+        augment(t, 'SearchTask.put_result', "self.stats['results']",
+                'put_result_increment',
+                {'len(results)': ('batch_len', 'Z', ['batch_len'])})
+        augment(t, 'SearchTask._run_search', "self.stats['lines_searched']",
+                'lines_searched_increment', {})
+        augment(s, 'FileSearcher._run_mp', "self.stats['total_jobs']",
+                'total_jobs_increment', {})
+        augment(s, 'FileSearcher._run_mp', "self.stats['jobs_completed']",
+                'jobs_completed_increment', {})
+
     # ---- output
     def params_v(self):
         out = ["(* GENERATED from the repository working tree by "
